@@ -462,24 +462,7 @@ Proof.
 Qed.
 
 Section EvalProofs.
-  Variables (Ctx Node Val : Type).
-
-  (* PARTIAL: [visit] (the memoising DFS with cycle detection and the expression evaluator) is not
-     modelled; what is assumed of it is the premise [visit_comm]: visiting two different nodes in
-     either order fails in both orders or reaches the same context. *)
-  Theorem evalReferences_nodes_perm_partial (referenced : Node -> bool) (visit : Ctx -> Node -> option Ctx)
-    (visit_comm : forall a b c, bindo (visit c a) (fun c' => visit c' b) = bindo (visit c b) (fun c' => visit c' a))
-    (nodes nodes' : list (bytes * Node)) :
-    Permutation nodes nodes' ->
-    forall c, evalReferences_nodes Ctx Node referenced visit nodes c = evalReferences_nodes Ctx Node referenced visit nodes' c.
-  Proof.
-    intros P. unfold evalReferences_nodes. apply foldM_perm; [exact P|].
-    intros a b c _ _. destruct (referenced (snd a)) eqn:Ra, (referenced (snd b)) eqn:Rb; simpl; rewrite ?Ra, ?Rb.
-    - apply visit_comm.
-    - destruct (visit c (snd a)); simpl; rewrite ?Rb; reflexivity.
-    - destruct (visit c (snd b)); simpl; rewrite ?Ra; reflexivity.
-    - reflexivity.
-  Qed.
+  Variables (Node Val : Type).
 
   Variable blockVal : bytes -> Node -> option Val.
 
